@@ -21,6 +21,7 @@ import FFVerif.Model.Miner
 import FFVerif.Model.Form
 import FFVerif.Model.Chol
 import FFVerif.Model.Gram
+import FFVerif.Model.Deriv
 import FFVerif.Props.C19
 import FFVerif.Props.C20
 import FFVerif.Gen.DiffTables
@@ -245,6 +246,16 @@ def handle (toks : List String) : Option String :=
       (oracle.splitOn "|").mapM (fun lv => (lv.splitOn ";").mapM parseList))
     let r := Subset.pf a b N (Subset.run nc ms (ms + 1) g0 orc)
     some s!"{r.1} {r.2}"
+  | ["deriv", n, m, coeffs, x0, dx] => do
+    -- the hard-coded stencil (n, m) of the regenerated tables on the polynomial with the given coefficients (constant term first)
+    let n ← n.toNat?
+    let m ← m.toNat?
+    let c ← parseFloatCsv coeffs
+    let x0 ← parseFloatCsv x0
+    let dx ← parseFloatCsv dx
+    let t ← Gen.diffTables.find? (fun t => t.1 == n && t.2.1 == m)
+    let poly : Float → Float := fun x => c.foldr (fun a acc => a + x * acc) 0
+    some (showFloats [Deriv.derivative t poly (x0.getD 0 0) (dx.getD 0 1)])
   | "c12gen" :: args => do
     -- the regenerated closing formulas at Float: beta, Phi(-beta), phi(beta), Phi(beta), then the curvatures
     let a ← parseFloats args
